@@ -6,22 +6,26 @@
 //!   vcheck worker ... / vcheck one ...     internal
 
 mod c02;
+mod c04;
 mod c09;
 mod c19;
+mod c20;
 mod compile;
 mod engine;
 mod gen;
+mod inject;
 mod model;
 mod observe;
 mod refcheck;
 mod render;
+mod rules;
 mod proc;
 mod wire;
 
 use engine::{Check, Tier};
 
 fn registry() -> Vec<&'static dyn Check> {
-    vec![&c02::C02, &c09::C09, &c19::C19]
+    vec![&c02::C02, &c04::C04, &c09::C09, &c19::C19, &c20::C20]
 }
 
 fn find(id: &str) -> &'static dyn Check {
